@@ -11,6 +11,8 @@ CHECKS = {
          "the fairness budgets recorded in each spec define 'fair share'; simnet's UDP model"),
  "C03": ("exploration", "§3 C03", "Write-then-close scripts on both transports and both roles with faults aimed at the datagrams in flight at close time; oracle: all bytes before EOF, or an error - never EOF after a strict prefix.",
          "only the direction written by the closing side is judged"),
+ "C04": ("fault_enumeration", "§3 C04", "One in-path mutation per run, positions enumerated from the byte geometry that the reference decoder recorded in a fault-free reference pass of the same seed: every segment x field class x offsets x {flip, substitute, insert, delete, truncate} plus whole-segment swap/duplicate/remove/splice; random shapes on top. Oracle: delivered bytes are a prefix (TCP) / the intact stream (UDP); no crash. Exhaustive for the stated positions of the listed shapes (thorough tier), shapes sampled.",
+         "determinism (one seed = one execution) makes the reference geometry valid up to the mutation point; only causal splices (source emitted before the target) are generated"),
  "C13": ("exploration", "§3 C13", "Wire-tap invariants evaluated on every datagram of C02/C03-style runs with the independent reference decoder: cumulative ack <= in-order prefix delivered to the acker; retransmissions identical in type/fragment/payload; first transmissions gapless from 0.",
          "refproto (written from docs/protocol.md) is the trusted base; simnet delivery events are ground truth for 'received'"),
  "C14": ("exploration", "§3 C14", "Wire-tap invariants on every datagram/segment of runs sweeping MTU x padding x low-entropy mode x write sizes x fault profiles (retransmissions, acks, control segments): datagram <= sender MTU, documented length limits.",
